@@ -96,6 +96,44 @@ add("C13", "model_checking",
     "exhaustive enumeration of the stack grammar (bounded depth) x API operations, each compiled against the implementation",
     "DESIGN.md 2/C13", "E4")
 
+add("C02", "model_checking",
+    "Conformance checking of the implementation against an executable reference model of the layer semantics: stacks are enumerated from the grammar (pairwise adjacency cover for all 16 (N,M); thorough adds every stack to depth 4 for seven (N,M)), each with a runtime description that a "
+    "reference interpreter evaluates layer by layer; for every coordinate of a dyadic alphabet the interpreter's trace (including the decision whether the coordinate is in the stack's domain) is replayed on the real field_view through both at() overloads and must agree exactly "
+    "(operation-count tolerance through linear). Innermost backends are independent models (probe function, constant, identity, arrays filled from the model function).",
+    "dyadic alphabets (exactness); negative lattice indices treated as out of domain; one configuration assignment per stack",
+    "explicit enumeration of stacks x coordinate alphabets; reference-model traces replayed against the implementation (model conformance)",
+    "DESIGN.md 2/C02", "E3+E4")
+add("C17", "exploration",
+    "For every generated stack (same grammar cover as C02 plus helper stacks of depth 1..10) built through the positional parameter-pack helper with pairwise distinct configuration values: the configuration reported after i get_backend() steps equals the i-th argument field by field, "
+    "and a field rebuilt recursively from the reported configurations and storage equals the original at every in-domain coordinate and in its dump bytes.",
+    "one configuration assignment per stack; rebuilt field compared on the C02 alphabet",
+    "bounded-exhaustive enumeration of stacks (grammar cover + depth 1..10 helper chains) with read-back / rebuild oracle on the implementation",
+    "DESIGN.md 2/C17", "E3+E4")
+add("C06", "model_checking",
+    "States are distinct byte streams: for every stack of the serialisable catalogue x configuration variants (ordinary, special values in every blob, 1-cell extents) x stored bit patterns (rotations and every scalar position in turn) the real dump is produced, dissected by an independent format automaton, "
+    "loaded by the real reader and compared typed: every layer's configuration bit-identical, every stored scalar bit-identical, re-dump byte-identical, exact consumption; two builds.",
+    "little-endian x86-64; catalogue = adjacency cover (every layer and adjacency), not every stack",
+    "exhaustive enumeration of (stack, configuration variant, bit pattern, position) with a format automaton as model; every transition (dump, load, re-dump) run on the implementation",
+    "DESIGN.md 2/C06", "E4+E7")
+add("C07", "model_checking",
+    "The format automaton is the model; conformance runs in both directions: every implementation dump is accepted by it (C06), and every ordered pair of catalogue stacks with identical on-disk footprint (differing in interpolator, coordinate precision, footprint-free wrappers and/or float width) "
+    "is exercised writer->reader over a narrowing-critical finite alphabet with a software round-to-nearest-even oracle; 410 committed golden files pin the bytes across revisions (load, re-dump, rebuild-from-recipe == golden).",
+    "golden files were written by the pinned revision plus its fix: commits; finite values only",
+    "exhaustive pair enumeration over the catalogue + golden-file conformance, format automaton as bound model",
+    "DESIGN.md 2/C07", "E4+E7")
+add("C08", "fault_enumeration",
+    "Complete enumeration of the fault space of every catalogue dump: every truncation point, every labelled header/footer/tag/width word x a replacement alphabet, every foreign writer the reader's grammar rejects, and a stream failing at the n-th read for every n; "
+    "each load runs in a forked child with an alarm so abort / signal / hang are observed; three build/oracle combinations incl. valgrind memcheck for decisions on uninitialised data. The demand is exactly 'an exception'.",
+    "count word never corrupted; 'incompatible' defined by the reader's format grammar; memcheck on a strided subset of cases",
+    "exhaustive fault-point enumeration (crash points = every byte offset; fault alphabet per labelled word) on the implementation with a fault-injecting stream",
+    "DESIGN.md 2/C08", "E6+E7")
+add("C15", "exploration",
+    "Bounded-exhaustive programs instead of random ones: the C12 history space (construction, writes, copies, assignments, conversions, IO, destruction, with every cell looked up after every operation) and lookups at every in-domain coordinate of the stack adjacency cover, "
+    "each built {-O0/-O1 assert, -O2 NDEBUG} x {ASan+UBSan incl. float-cast-overflow, valgrind memcheck}; any sanitizer / memcheck report or assertion is a violation and the digests of all observed values must agree across the four configurations.",
+    "programs bounded as in C12 / C02 quick covers; malformed input excluded (C08)",
+    "bounded-exhaustive enumeration of operation histories and stack lookups under sanitizer / memcheck oracles in four build configurations",
+    "DESIGN.md 2/C15", "E1+E4+E8")
+
 def main():
     props = [json.loads(l) for l in open(os.path.join(V, "properties.jsonl"))]
     checks, na = [], []
